@@ -13,7 +13,7 @@ From TV Require Import Model.Engine Model.EngineToy Proofs.EngineMemo Proofs.Eng
   Proofs.EngineLayoutsToy Model.EngineReplay Proofs.EngineReplay Proofs.EngineTotal.
 From Coq Require Import ZArith.
 From TV Require Import Num.Num Num.QNum.
-From TV Require Model.Cache Model.EngineReal Proofs.EngineReal Model.EngineRealToy.
+From TV Require Model.Cache Model.EngineReal Proofs.EngineReal Model.EngineRealToy Model.BlockEngineRun Model.BlockEngineRealRun.
 Import ListNotations.
 
 (* a memoised evaluation returns what the cache-free evaluation of the same skeleton returns, keeps every cache entry
@@ -450,11 +450,34 @@ Theorem C01_real_lossy_hit_refuted :
   tr_passes (tr_fresh tr_k) [(PerformLayout, 4%N); (PerformLayout, 5%N)] = [Some (24%N, 0%N); Some (24%N, 1%N)] /\
   tx_fresh_out (PerformLayout, 5%N) = Some 28%N.
 Proof. split; vm_compute; reflexivity. Qed.
+
+(* the same finding on the model the correspondence runs, with taffy's own leaf algorithm over binary32 (a generated case,
+   `vh blocktree case 2 649`, replayed on the implementation by every run of the correspondence that contains it): ONE node -- a leaf
+   `size 92.5 x 195, min-width 157.75, padding-left / -top 12.5 %, measure Fixed(67.75, 18.5)` -- laid out under 182.25 x 169 and then
+   under max-content x 85.5.  Both root queries carry the same known dimensions (157.75, 195), so the real cache answers the second
+   from the first (1 lossy hit: the parent size differs, and the percentage padding resolves against it): content size
+   93.53125 x 43.53125 is kept where the exact-key memo (and a fresh tree) computes 70.75 x 20.75.  Encoded input and outputs as the
+   runners of the two correspondences print them (layout integers; the real-cache runner prefixes lossy hits and evaluations and
+   appends queries / hits / measure calls per node). *)
+Definition lossy_block_case : list Z :=
+  [2; 0; 1127628800; 0; 1126760448; 2; 0; 0; 1118502912; 0; 0; 0; 0; 0; 0; 0; 2; 0; 2; 0; 2; 0; 2; 0; 0; 1119420416; 0; 1128464384; 0;
+   1126023168; 0; 1101135872; 2; 0; 2; 0; 0; 0; 0; 0; 0; 0; 0; 0; 0; 0; 1; 1040187392; 0; 1077936128; 1; 1040187392; 0; 1074790400; 0;
+   0; 0; 0; 0; 0; 0; 0; 3; 1; 1116176384; 1100218368; 0]%Z.
+Theorem C01_real_lossy_hit_refuted_on_a_block_tree :
+  TV.Model.BlockEngineRun.run_case lossy_block_case =
+    ([0; 0; 0; 1126023168; 1128464384; 1119555584; 1110319104; 0; 0; 0; 0; 0; 0; 1102462976; 1077936128; 1102462976; 1074790400; 0; 0; 0; 0] ++
+     [0; 0; 0; 1126023168; 1128464384; 1116569600; 1101398016; 0; 0; 0; 0; 0; 0; 0; 1077936128; 0; 1074790400; 0; 0; 0; 0])%Z /\
+  TV.Model.BlockEngineRealRun.run_case_real lossy_block_case =
+    ([1; 1] ++
+     [0; 0; 0; 1126023168; 1128464384; 1119555584; 1110319104; 0; 0; 0; 0; 0; 0; 1102462976; 1077936128; 1102462976; 1074790400; 0; 0; 0; 0] ++ [1; 0; 1] ++
+     [0; 0; 0; 1126023168; 1128464384; 1119555584; 1110319104; 0; 0; 0; 0; 0; 0; 0; 1077936128; 0; 1074790400; 0; 0; 0; 0] ++ [1; 1; 0])%Z.
+Proof. split; vm_compute; reflexivity. Qed.
 Print Assumptions C01_exact_instance_is_memo.
 Print Assumptions C01_real_sound_when_no_lossy_hit.
 Print Assumptions C01_real_equals_exact_when_no_lossy_hit_partial.
 Print Assumptions C01_real_fresh_valid.
 Print Assumptions C01_real_lossy_hit_refuted.
+Print Assumptions C01_real_lossy_hit_refuted_on_a_block_tree.
 End RealCache.
 
 Print Assumptions C01_memo_sound.
